@@ -81,6 +81,10 @@ def cases(tier):
                         yield ("packed", op, n, dts, 0, tier)
     for op in OPS:
         yield ("errors", op, tier)
+    for op in OPS:
+        for n in _ns(op):
+            if n <= 3:
+                yield ("viacmd", op, n)
 
 
 def _packed(case):
@@ -148,6 +152,40 @@ def _packed(case):
             "viols": viols, "outcomes": {"%s:%s:%s" % (op, oc, "".join(d[0] for d in dts)): 1},
             "sample": {"op": op, "dtypes": list(dts), "params": params, "cells_in_one_call": len(tuples),
                        "tuple_17": [str(x) for x in tuples[min(17, len(tuples) - 1)]]}}
+
+
+def _viacmd(case):
+    """through Command.run (argument cleaning included), with UNSIGNED element types in the mix (what the NetCDF reader delivers for
+    DataType = "Positive Integer"): every assignment of {int64, float64, uint64} to <=2 inputs (3 for all-unsigned) over a small lattice"""
+    _, op, n = case
+    viols = []
+    counters = {"judged": 0, "unspecified": 0}
+    outcomes = {}
+    evals = 0
+    sample = None
+    lat_u = [F(0), F(1), F(3), F(5), M]
+    lat_s = [F(-2), F(0), F(1), F(5), M]
+    for dts in itertools.product(("int", "float", "uint"), repeat=n):
+        if "uint" not in dts:
+            continue
+        if n == 3 and set(dts) != {"uint"}:
+            continue
+        lats = [lat_u if d == "uint" else lat_s for d in dts]
+        tuples = list(itertools.product(*lats))
+        cols = [[t[i] for t in tuples] for i in range(n)]
+        for params in _presets(op, n, "quick")[:6]:
+            arrays = [D.mk_array(c, dtype=d) for c, d in zip(cols, dts)]
+            res = D.run_via_command(op, arrays, params)
+            evals += len(tuples)
+            tag = {"op": op, "n": n, "dtypes": list(dts), "params": params, "through": "Command.run"}
+            sample = tag
+            nv = len(viols)
+            oc = D.judge("C07", op, params, cols, res, (len(tuples),), viols, tag, counters, V)
+            for v in viols[nv:]:
+                v["key"] += ":unsigned-input"
+            outcomes["%s:viacmd:%s" % (op, oc)] = outcomes.get("%s:viacmd:%s" % (op, oc), 0) + 1
+    return {"evals": max(evals, 1), "nontrivial": evals, "judged": counters["judged"], "unspecified": counters["unspecified"], "viols": viols[:30],
+            "outcomes": outcomes, "sample": sample}
 
 
 def _errors(case):
@@ -230,4 +268,6 @@ def run(case):
     case = tuple(case)
     if case[0] == "packed":
         return _packed((case[0], case[1], case[2], tuple(case[3]), case[4], case[5]))
+    if case[0] == "viacmd":
+        return _viacmd(case)
     return _errors(case)
